@@ -56,7 +56,13 @@ pub fn property(id: &str) -> Option<PropertySpec> {
             id: "C04",
             rule: hist::C04_RULE,
             assumptions: vec![ORACLE, SETUP, "stack depths are private and observed only through unwinding"],
-            checks: vec![Box::new(hist::C04Histories), Box::new(hist::C04EngineMoves), Box::new(hist::C04LongGames), Box::new(hist::C04Marathon)],
+            checks: vec![
+                Box::new(hist::C04Histories),
+                Box::new(hist::C04EngineMoves),
+                Box::new(hist::C04LongGames),
+                Box::new(hist::C04Marathon),
+                Box::new(search::DeepMateSearches { name: "C04/deep-mate-searches" }),
+            ],
         },
         "C05" => PropertySpec {
             id: "C05",
